@@ -249,6 +249,10 @@ def cells(tier):
                 yield ((ka, kb), prog)
 
 
+def steps(cell):
+    return len(cell[1])
+
+
 def nontrivial(cell):
     kinds, prog = cell
     return any(k in ("fconst", "itens", "btens", "nd", "sc") for k in kinds) or any(st[2] is not None for st in prog)
